@@ -212,8 +212,37 @@ def fill(claim, na):
           'Numerical equality of BLAS-batched and numpy results is not decided.',
           'trusts Cython.Compiler.Parsing, the lowering in sa/pyx.py (C pointer helpers are '
           'opaque), and that the .so was built from the .cpp next to it', 'C04')
-    for pid in ['C11',
-                'C13', 'C16', 'C19']:
+    claim('C16', 'sibling-loop agreement (loop bodies abstracted to sequences of vector effects, '
+          'compared up to rotation) + attribute-discipline and adjoint rules on the wrapper '
+          'operators + energy-shift pairing',
+          PARTIAL + 'The clause "the result does not depend on how many basis vectors are kept in '
+          'memory": the loop of _rebuild_krylov_for_result_full performs the same recurrence as '
+          '_build_krylov (same effects on w, same reortho/elif branch structure, coefficients read '
+          'from h[k,k] / h[k,k+1] where the first pass stored them), and the final sum pairs '
+          'cache[-k] with vf[N-k] and the rebuilt vectors with vf[k+1]. Wrapper operators (Sum, '
+          'Shift, Boost, Orthogonal) read in matvec/adjoint only attributes their own __init__ '
+          'defines (anything else falls through __getattr__), adjoint() conjugates scalars and '
+          'adjoints operators, P H P projects before and after on a copy; E_shift is added inside '
+          'an orthogonal projection and subtracted from the returned energy; Arnoldi insists on a '
+          'full cache; Gram-Schmidt structure. Rayleigh quotients, residuals and convergence are '
+          'not decided.', 'several structure checks match normalised statements of the current '
+          'implementation', 'C16')
+    claim('C19', 'closed computation on literal tables: whitelisted constant folder over the AST '
+          'of the lattice constructors + override-pairing over the class table',
+          PARTIAL + 'The clause "predefined neighbour lists match the Euclidean distances of the '
+          'site positions": for Chain, Ladder, Square, Triangular, Honeycomb, Kagome (20 '
+          'categories) the literal basis, unit-cell positions and pair lists are folded from the '
+          'AST; all pairs of a category have one length, category k is the k-th smallest distinct '
+          'distance, the list is complete per unit cell up to (u1,u2,dx)~(u2,u1,-dx) and free of '
+          'duplicates, unit-cell indices in range (exhaustive). Inverse-pair methods '
+          '(mps2lat_idx/lat2mps_idx, possible_couplings/possible_multi_couplings, '
+          'save_hdf5/from_hdf5, ...) are overridden together in every subclass; ordering() falls '
+          'through to the parent; the order setter recomputes the inverse permutation. '
+          'Bijectivity of the index maps and exactness of possible_couplings over all orderings '
+          'and boundary conditions are not decided.',
+          'NLegLadder excluded (topological neighbours by documentation); derived lattices '
+          '(MultiSpecies, Irregular, Helical) have no literal tables', 'C19')
+    for pid in ['C11', 'C13']:
         na(pid, 'static rule planned in DESIGN.md but not built yet (work in progress); not '
            'claimed until its check exists')
     na('C08', 'every clause quantifies over numerical values (expectation values, overlaps, Born '
